@@ -71,6 +71,7 @@ def check(prog: Program, tier: str) -> Result:
     _r4_i(prog, res)
     _r4_j(prog, res)
     _r4_k(prog, res)
+    _r4_l(prog, res)
     res.floors.update({"R4.a": 25, "R4.b": 200, "R4.c": 4, "R4.d": 18, "R4.e": 8, "R4.f": 40, "R4.h": 2, "R4.i": 2, "R4.j": 5, "R4.k": 1})
     return res
 
@@ -703,6 +704,56 @@ def _r4_k(prog: Program, res: Result) -> None:
                        "the list of matches was tested to be non-empty" if ok else
                        f"the pattern {short(pat, 40)} need not occur in the text: IndexError on valid input (e.g. `else :` written with a blank)")
     res.analysed["indexed_regex_results"] = n
+
+
+# ------------------------------------------------------------------------------------------------ R4.l
+def _r4_l(prog: Program, res: Result) -> None:
+    """Parsing a SNIPPET: core.parse / ast.parse of a text that is not the function's own text parameter (the spelling of
+    one literal, an uncommented comment block, ...) raises SyntaxError unless the snippet was validated first.  A
+    contradiction rule (the code states its own belief): in a function where some snippet parse is guarded by the
+    validity oracle, EVERY snippet parse must be guarded (by the oracle on the same text - as an earlier conjunct, an
+    enclosing test or an early exit - or by a SyntaxError handler); functions that never guard are listed undecided."""
+    from ..evaluator import caught as _caught
+    per_fn = {}
+    for fn in prog.funcs.values():
+        for c in prog.calls_in(fn):
+            d = prog.dotted(c.func) or ""
+            if d not in ("core.parse", "ast.parse") or not c.args or not isinstance(c.args[0], ast.Name) or c.args[0].id in fn.all_params:
+                continue
+            x = c.args[0].id
+            guarded = _caught(c, fn, "SyntaxError") is not None
+            why = "inside a SyntaxError handler" if guarded else ""
+            if not guarded:
+                # earlier conjunct / enclosing test `is_valid_python(x)`
+                child, a = c, parent(c)
+                while a is not None and a is not fn.node and not guarded:
+                    if isinstance(a, ast.BoolOp) and isinstance(a.op, ast.And):
+                        idx = next((i for i, v in enumerate(a.values) if v is child or any(child is y for y in ast.walk(v))), None)
+                        if idx is not None and any(norm(v).endswith(f"is_valid_python({x})") for v in a.values[:idx]):
+                            guarded, why = True, "earlier conjunct is_valid_python on the same text"
+                    if isinstance(a, (ast.If, ast.IfExp)) and norm(a.test).endswith(f"is_valid_python({x})"):
+                        body = a.body if isinstance(a.body, list) else [a.body]
+                        if any(child is b or any(child is y for y in ast.walk(b)) for b in body):
+                            guarded, why = True, "inside `if is_valid_python(..)`"
+                    child, a = a, parent(a)
+            if not guarded:
+                pa = PathAnalysis(prog, fn)
+                test = ast.parse(f"core.is_valid_python({x})", mode="eval").body
+                if pa.reached(c) and pa.holds_at(c, lambda w: pa.formula(test, w))[0]:
+                    guarded, why = True, "reached only after is_valid_python held for the text"
+            per_fn.setdefault(fn.key, []).append((fn, c, x, guarded, why))
+    for key, items in sorted(per_fn.items()):
+        believes = any(g and "is_valid_python" in w for _f, _c, _x, g, w in items)
+        for fn, c, x, guarded, why in items:
+            text = short(c, 70)
+            if guarded:
+                res.ok("R4.l", fn.loc(c), fn.fq, text, why)
+            elif believes:
+                res.bad("R4.l", fn.loc(c), fn.fq, text,
+                        f"'{x}' is parsed without validation although the same function validates its other snippets first: a snippet that is not valid python on its own "
+                        "(a piece of an f-string, half a statement) raises SyntaxError out of the formatter")
+            else:
+                res.undecided("R4.l", fn.loc(c), fn.fq, text, f"'{x}' is parsed without validation; this function never validates snippets (no stated belief to contradict)")
 
 
 # ------------------------------------------------------------------------------------------------ R4.e / R4.g
